@@ -240,6 +240,20 @@ func buildBattery() []*query {
 		{IDs: S(r1, r2)},
 		{Tags: tag("e", S(r1), "t", S("tag"))},
 	}
+	// one tag key listing SEVERAL values, with a limit: an event carrying two of the listed values
+	// (r3) has two index rows, which must count once against the limit
+	multi := []mocrelay.ReqFilter{
+		{Tags: tag("e", S(r1, idU))},
+		{Tags: tag("t", S("tag", "other"))},
+		{Tags: tag("e", S(r1, idU), "t", S("tag", "other"))},
+		{Tags: tag("e", S(r1, idU)), Kinds: K(1, 30000, 5)},
+	}
+	for _, b := range multi {
+		add(b)
+		for _, l := range []int64{1, 2, 3} {
+			add(*withLimit(b, l))
+		}
+	}
 	for _, b := range bases {
 		for _, l := range []int64{0, 1, 2, 3} {
 			add(*withLimit(b, l))
@@ -257,7 +271,7 @@ func buildBattery() []*query {
 		{Authors: S(pkQ), Limit: p64(1)},
 		{IDs: S(r1)},
 		{Tags: tag("e", S(r1))},
-		{Tags: tag("t", S("tag")), Limit: p64(1)},
+		{Tags: tag("t", S("tag", "other")), Limit: p64(1)},
 		{Since: p64(2)},
 		{Until: p64(2), Limit: p64(1)},
 		{Kinds: K(0, 30000)},
@@ -280,6 +294,8 @@ func buildBattery() []*query {
 	// three overlapping filters at once
 	qs = append(qs, &query{fs: []*filt{cf[5], cf[7], cf[10]}})
 	qs = append(qs, &query{fs: []*filt{cf[1], cf[1], cf[1]}})
+	qs = append(qs, &query{fs: []*filt{mkFilt(withLimit(multi[0], 2)), mkFilt(withLimit(multi[1], 2))}})
+	qs = append(qs, &query{fs: []*filt{mkFilt(withLimit(multi[0], 2)), cf[0]}})
 	// the empty filter list (REQ needs at least one filter): unclaimed, only exercised
 	qs = append(qs, &query{empty: true})
 	return qs
